@@ -88,12 +88,12 @@ def cases(draw, tier, det):
     params, n_min = draw(K.detector_params(det, p, max_msl=3, max_bw=4, allow_cov=False))
     nmax = 30 if det != "CircularBinarySegmentation" else 18
     n = draw(st.integers(n_min, max(n_min, nmax)))
-    integral = draw(st.sampled_from([True, False]))
+    integral = draw(st.sampled_from([False, True]))
     bw = params.get("bandwidth", params.get("min_segment_length", 1))
     case = {"detector": det, "params": params, "X": None, "integral": integral}
     # structural choices first, bulk data last (see strategies/data.py)
     n2 = nt = None
-    if draw(st.integers(0, 2)) == 0:
+    if draw(st.integers(0, 1)) == 0:
         n2 = draw(st.integers(1, 8))
         mode = draw(st.sampled_from(["pandas", "arrays"]))
         if mode == "arrays":
@@ -106,6 +106,14 @@ def cases(draw, tier, det):
             r = draw(repr_spec(p, integral, D.INDEX_KINDS, D.UNIQUE_COLUMN_KINDS))  # pandas alignment needs unique labels
             r["container"] = draw(st.sampled_from(["DataFrame"] + (["Series"] if p == 1 else [])))
             r2 = dict(r, dtype=draw(st.sampled_from(["float64", "int64"])) if integral else "float64")
+            # 1-3 chunks; each continues the data seen so far, overlaps its last 1-2 rows, or leaves a gap, and has its own
+            # value family: a whole-numbered chunk may arrive as int64 although the earlier data were fractional floats
+            plan = []
+            for _ in range(draw(st.integers(1, 3))):
+                whole = draw(st.sampled_from([True, True, False]))
+                plan.append({"n": draw(st.integers(1, 8)), "delta": draw(st.sampled_from([0, 0, -1, -2, 2])), "integral": whole,
+                             "dtype": draw(st.sampled_from(["int64", "int64", "float64"])) if whole else "float64"})
+            case["update_plan"] = plan
         case["update_mode"] = mode
         case["reprs"] = {"fit": r, "update": r2}
     else:
@@ -120,7 +128,12 @@ def cases(draw, tier, det):
             r["columns"] = "rev:" + fit_r["columns"]  # the training labels in the opposite order: data are matched by position
         case["reprs"][ep] = r
     case["X"], _ = draw(D.structured_matrix(n, p, exact=integral, boundary_positions=(bw, n - bw)))
-    if n2 is not None:
+    if n2 is not None and "update_plan" in case:
+        case["updates"] = []
+        for u in case.pop("update_plan"):
+            Xu, _ = draw(D.structured_matrix(u["n"], p, exact=u["integral"], max_shifts=1, max_spikes=1, max_bumps=1))
+            case["updates"].append({"X": Xu, "delta": u["delta"], "dtype": u["dtype"]})
+    elif n2 is not None:
         case["X_update"], _ = draw(D.structured_matrix(n2, p, exact=integral, max_shifts=1, max_spikes=1, max_bumps=1))
     if nt is not None:
         case["X_test"], _ = draw(D.structured_matrix(nt, p, exact=integral, boundary_positions=(bw, nt - bw)))
@@ -139,7 +152,16 @@ def run_history(case, canonical_run):
     det.fit(obj)
     if not canonical_run:
         check_caller_index(obj, R["fit"], len(X), "fit")
-    if "X_update" in case:
+    if "updates" in case:
+        end = n_train
+        for u in case["updates"]:
+            off = max(0, end + u["delta"])
+            if canonical_run:
+                det.update(canonical(u["X"], off))
+            else:
+                det.update(represent(u["X"], dict(R["update"], dtype=u["dtype"]), off))
+            end = max(end, off + len(u["X"]))
+    elif "X_update" in case:
         if canonical_run:
             off = 0 if case["update_mode"] == "arrays" else n_train
             det.update(canonical(case["X_update"], off))
@@ -209,8 +231,14 @@ def check(case):
     classes = []
     for ep, r in R.items():
         classes.append(f"{ep}:{r['container']}")
-    if "X_update" in case:
+    if "X_update" in case or "updates" in case:
         classes.append(f"update_mode={case['update_mode']}")
+    if "updates" in case:
+        classes.append(f"update_chunks={len(case['updates'])}")
+        if any(u["delta"] < 0 for u in case["updates"]):
+            classes.append("overlapping_chunk")
+        if any(u["dtype"] == "int64" for u in case["updates"]) and not case["integral"]:
+            classes.append("int64_chunk_after_fractional_data")
     if any(r["dtype"] == "int64" for r in R.values()):
         classes.append("int64")
     pandas_reprs = [r for r in R.values() if r["container"] in ("DataFrame", "Series")]
